@@ -275,9 +275,8 @@ Qed.
 
 Lemma Mode_RV c nb w d nom defer : Mode c nb w d nom defer -> st_closed w = false -> RV c nb w d nom.
 Proof.
-  intros [(A & _)|(_ & [(A & <-)|[(A & <-)|(_ & _ & A)]])] Hcl; [congruence| | |exact A].
-  - eapply RV_of_live; eauto.
-  - apply RV_of_seal; exact A.
+  intros [(A & _)|(_ & [(A & <-)|(_ & _ & A)])] Hcl; [congruence| |exact A].
+  eapply RV_of_live; eauto.
 Qed.
 
 (* ------------------------------------------------------------------ *)
